@@ -57,3 +57,34 @@ Fixpoint write_pieces (s : sink) (ps : list bytes) : bool * sink :=
     | (false, s') => (false, s')
     end
   end.
+
+(* GenericSingleObjectWriter (writer/single_object.rs): the writer keeps one buffer that holds the
+   message header between calls.  write_value_ref refuses a buffer whose length is outside 10..=20,
+   appends the encoded value (None: validation or encoding failed), hands the whole buffer to
+   write_all, and truncates the buffer back to its length at entry whatever happened.  Result: the
+   message length, or an error. *)
+Definition so_guard (buf : bytes) : bool := (10 <=? length buf)%nat && (length buf <=? 20)%nat.
+
+Definition sow_write (buf : bytes) (s : sink) (payload : option bytes) : option nat * bytes * sink :=
+  if so_guard buf then
+    match payload with
+    | None => (None, buf, s)
+    | Some p =>
+      let msg := buf ++ p in
+      match write_all (wa_fuel s msg) s msg with
+      | (true, s') => (Some (length msg), firstn (length buf) msg, s')
+      | (false, s') => (None, firstn (length buf) msg, s')
+      end
+    end
+  else (None, buf, s).
+
+(* a history of calls on one writer; each call is reported with the bytes the sink took during it *)
+Fixpoint sow_run (buf : bytes) (s : sink) (ops : list (option bytes)) : list (option nat * bytes) * bytes * sink :=
+  match ops with
+  | [] => ([], buf, s)
+  | p :: r =>
+    let '(res, buf', s') := sow_write buf s p in
+    let taken := skipn (length (sk_data s)) (sk_data s') in
+    let '(outs, bufn, sn) := sow_run buf' s' r in
+    ((res, taken) :: outs, bufn, sn)
+  end.
